@@ -295,14 +295,14 @@ Qed.
 
 (* rational end points: [0, 7/3) {5/2} (7/2, +inf) *)
 Definition ex_q : list (itv xq) :=
-  [mkItv (XFin (0, 1)%Z) (XFin (7, 3)%Z) false true false; mkItv (XFin (5, 2)%Z) (XFin (5, 2)%Z) false false true;
-   mkItv (XFin (7, 2)%Z) XPinf true true false].
+  [mkItv (XQFin (0, 1)%Z) (XQFin (7, 3)%Z) false true false; mkItv (XQFin (5, 2)%Z) (XQFin (5, 2)%Z) false false true;
+   mkItv (XQFin (7, 2)%Z) XQPinf true true false].
 Example ex_q_WFx : Forall WFx ex_q.
 Proof. repeat constructor; cbn; auto; try discriminate. Qed.
 Example ex_q_NF : NF xq_cmp ex_q.
 Proof. cbn. unfold WF, sep, lt; cbn. intuition. Qed.
 Example ex_q_counts : map itv_count_int ex_q = [3%Z; 0%Z; LONG_MAX] /\ xs_contains_int ex_q = true /\
-                      xs_pick_ok ex_q (XFin (5, 1)%Z) = true /\ xs_pick_ok ex_q (XFin (5, 2)%Z) = false.
+                      xs_pick_ok ex_q (XQFin (5, 1)%Z) = true /\ xs_pick_ok ex_q (XQFin (5, 2)%Z) = false.
 Proof. vm_compute. auto. Qed.
 
 (* the premise of the rank-transfer theorems is satisfiable: doubling ranks (what the model driver does to give
